@@ -320,6 +320,32 @@ def run(ctx):
     vins = [b for b, t, c in ins.calls() if c and c.endswith("Vec::<T, A>::insert")]
     ctx.need(len(vins) == 1, "Vec::insert in Breakpoints::insert")
     vb = vins[0]
+    # any further call that makes the list longer (an append fast path) must sit behind a strict test "last element below the new address":
+    # with `<=` the highest address can be entered twice
+    grow = [(b, t, c) for b, t, c in ins.calls() if c and b != vb and re.search(r"Vec::<T, A>::(push|insert|extend|append|extend_from_slice|push_within_capacity)$", c)]
+    ctx.instance(1)
+    bad_grow = []
+    for gb, gt, gc in grow:
+        tests = []
+        for b_, t_, c_ in ins.calls():
+            if c_ and re.search(r"Iterator>?::position$", c_):
+                continue            # the search for the insertion index, judged below
+            for cl in (t_.get("f") or {}).get("closures", []) if isinstance(t_.get("f"), dict) else []:
+                cfn = prog.fns.get(cl)
+                if cfn is None:
+                    continue
+                ee = cfn.local_expr(0, 10)
+                if ee[0] == "bin" and ee[1] in ("Lt", "Le", "Gt", "Ge", "Eq", "Ne") and "address" in expr_str(ee):
+                    elem = lambda e: any(x[0] == "arg" and x[1] == 2 for x in expr_walk(e))
+                    strict = (ee[1] == "Lt" and elem(ee[2]) and not elem(ee[3])) or (ee[1] == "Gt" and elem(ee[3]) and not elem(ee[2]))
+                    tests.append((expr_str(ee, 120), strict))
+        if not tests or not all(st for _, st in tests):
+            bad_grow.append((gb, gt, gc, [x for x, _ in tests]))
+    ctx.oblig(not bad_grow, {"further growing calls in insert": [short(c) for _, _, c in grow]}, "each behind a strict `last.address < new.address`")
+    for gb, gt, gc, tests in bad_grow:
+        ctx.violation("append-guard|%s" % short(gc), sp_file_line(gt.get("sp")),
+                      "insert also grows the list through `%s`, and the test in front of it (%s) is not a strict `element.address < new.address`: "
+                      "an address equal to the highest one can be entered twice" % (short(gc), "; ".join(tests) or "none found"))
     pos_calls = [(b, t) for b, t, c in ins.calls() if c and re.search(r"Iterator>?::position$", c)]
     if pos_calls:
         # form B: `position(|o| o.address >= new.address)`, a duplicate test at the position found, Vec::insert there (or at len)
